@@ -326,9 +326,15 @@ func (p *Parser) parseStatement() ast.Node {
 	case token.VAR:
 		stmt = p.parseVar()
 	case token.CONST:
-		stmt = p.parseConst()
+		// Don't store a nil *ast.Const in the ast.Node interface: it would not
+		// compare equal to nil and would be taken for a statement
+		if constStmt := p.parseConst(); constStmt != nil {
+			stmt = constStmt
+		}
 	case token.RETURN:
-		stmt = p.parseReturn()
+		if returnStmt := p.parseReturn(); returnStmt != nil {
+			stmt = returnStmt
+		}
 	case token.BREAK:
 		stmt = p.parseBreak()
 	case token.CONTINUE:
@@ -455,6 +461,7 @@ func (p *Parser) parseReturn() *ast.Return {
 	p.nextToken()
 	value := p.parseExpression(LOWEST)
 	if value == nil {
+		p.setTokenError(p.curToken, "invalid return statement value")
 		return nil
 	}
 	return ast.NewReturn(returnToken, value)
